@@ -11,6 +11,7 @@
 //!     k = key *index* (Nat); the key type says how an index becomes a real key, monotonically:
 //!         u64  BigUInt k            i64  BigInt k-500         text  Blob bits(k)   (24-bit binary, trailing '0's cut)
 //!         ltext Blob 'x'*(pagesize/2) ++ bits(k)               comp  (BigInt k/7-30, Blob bits(k%7))
+//!         btext Blob of 16 bytes: base-4 digits of k drawn from 05 85 90 F3 (both sides of 0x80), see `bkey`
 //!     payload(len, seed) = seed (2 bytes LE, as far as they fit) then a pattern depending on seed and position
 //!   cmp:<keytype> a b            the code's comparator on two realised keys
 //!   split n1,n2,…                Btree::split_cells on cells with these payload sizes
@@ -35,6 +36,8 @@ enum Kt {
     LText,
     /// text keys of very different lengths (every fifth key carries 350 trailing blanks): dividers of mixed sizes
     MText,
+    /// 16-byte binary keys whose bytes take values on both sides of 0x80, varying inside the second aligned 8-byte group
+    BText,
     Comp,
 }
 
@@ -45,6 +48,7 @@ fn parse_kt(s: &str) -> Option<Kt> {
         "text" => Kt::Text,
         "ltext" => Kt::LText,
         "mtext" => Kt::MText,
+        "btext" => Kt::BText,
         "comp" => Kt::Comp,
         _ => return None,
     })
@@ -54,7 +58,7 @@ fn kind_of(kt: Kt) -> KeyKind {
     match kt {
         Kt::U64 => KeyKind::U64,
         Kt::I64 => KeyKind::I64,
-        Kt::Text | Kt::LText | Kt::MText => KeyKind::Text,
+        Kt::Text | Kt::LText | Kt::MText | Kt::BText => KeyKind::Text,
         Kt::Comp => KeyKind::Comp,
     }
 }
@@ -86,6 +90,30 @@ fn unbits(v: &[u8]) -> Option<u64> {
     Some(k)
 }
 
+/// byte values of a base-4 digit: increasing as unsigned bytes, on both sides of 0x80
+const BSYM: [u8; 4] = [0x05, 0x85, 0x90, 0xF3];
+
+/// k = hi·4096 + lo  ↦  8 digits of hi ++ 6 digits of lo ++ 80 80: fixed length, most significant digit first, so the
+/// bytewise order of the keys is the order of the indices
+fn bkey(k: u64) -> Vec<u8> {
+    let (hi, lo) = (k >> 12, k & 0xFFF);
+    let mut v: Vec<u8> = (0..8).rev().map(|i| BSYM[((hi >> (2 * i)) & 3) as usize]).collect();
+    v.extend((0..6).rev().map(|i| BSYM[((lo >> (2 * i)) & 3) as usize]));
+    v.extend([0x80, 0x80]);
+    v
+}
+
+fn unbkey(v: &[u8]) -> Option<u64> {
+    if v.len() != 16 || v[14..] != [0x80, 0x80] {
+        return None;
+    }
+    let mut k = 0u64;
+    for b in &v[..14] {
+        k = (k << 2) | BSYM.iter().position(|s| s == b)? as u64;
+    }
+    Some(k)
+}
+
 fn realise(kt: Kt, page_size: usize, k: u64) -> VKey {
     match kt {
         Kt::U64 => VKey::U64(k),
@@ -103,6 +131,7 @@ fn realise(kt: Kt, page_size: usize, k: u64) -> VKey {
             }
             VKey::Text(v)
         }
+        Kt::BText => VKey::Text(bkey(k)),
         Kt::Comp => VKey::Comp((k / 7) as i64 - 30, bits(k % 7)),
     }
 }
@@ -123,6 +152,7 @@ fn index_of(kt: Kt, page_size: usize, key: &VKey) -> Option<u64> {
             let n = v.iter().rev().take_while(|b| **b == b' ').count();
             unbits(&v[..v.len() - n])?
         }
+        (Kt::BText, VKey::Text(v)) => unbkey(v)?,
         (Kt::Comp, VKey::Comp(a, v)) => {
             let r = unbits(v)?;
             if r >= 7 {
@@ -1040,7 +1070,7 @@ mod generator {
         };
         let clean = [Profile::Tiny, Profile::Small, Profile::Small];
         let risky = [Profile::Mid, Profile::Big, Profile::Huge, Profile::Mix];
-        let kts = ["u64", "u64", "i64", "text", "comp", "mtext"];
+        let kts = ["u64", "u64", "i64", "text", "comp", "mtext", "btext"];
         for i in 0..nseq {
             // patterns come round; 4 of 10 sequences use large cells (overflow chains, few cells per page)
             let pattern = PATTERNS[i % PATTERNS.len()];
@@ -1086,7 +1116,7 @@ mod generator {
                 ps: 4096,
                 mk: 3 + rng.below(2) as usize,
                 sib: if long_keys { 1 + rng.below(2) as usize } else { 1 + rng.below(4) as usize },
-                kt: if long_keys { "ltext" } else { *rng.pick(&["u64", "i64", "comp", "mtext"]) },
+                kt: if long_keys { "ltext" } else { *rng.pick(&["u64", "i64", "comp", "mtext", "btext"]) },
                 profile: if long_keys { Profile::Tiny } else { Profile::SmallHi },
                 pattern,
                 nops: if long_keys { 900 + rng.below(400) as usize } else { 1700 + rng.below(500) as usize },
@@ -1096,7 +1126,7 @@ mod generator {
             out.push(c);
         }
         // comparator tie: the realisation of key indices is monotone under the code's comparator
-        for kt in ["u64", "i64", "text", "ltext", "mtext", "comp"] {
+        for kt in ["u64", "i64", "text", "ltext", "mtext", "btext", "comp"] {
             for _ in 0..40 {
                 let a = rng.below(2000);
                 let b = if rng.chance(1, 5) { a } else { rng.below(2000) };
